@@ -266,6 +266,24 @@ theorem stale_release_via_merge_witness (own : String) :
   · simp [step, stepJson, w0, applyFns, Fn.apply, allowDeletion, allowLoop]
   · simp [w0, required]
 
+/-- F5c, the benign mirror: a carried ADDITION. The cycle queues `block`; a label edit makes the
+handler mismatch before the JSON patch → 422, `[block]` carried; the next cycle sees an object that
+nothing requires a finalizer on, decides nothing, and applies the carried addition. -/
+theorem stale_add_witness (own : String) :
+    ∃ s s', Reach own s ∧ step own s (.jsonPatch false) = some s' ∧
+      own ∉ s.fins ∧ own ∈ s'.fins ∧ s.matchDel = false ∧ s.matchDmn = false ∧
+      (∃ p, s.pending = some p ∧ p.fns = [Fn.block] ∧
+            (decision (inputs own { s with pending := none, mem := p.fns } quiet)).fns = []) := by
+  let ls : List Label := [.decide quiet, .toggleDel, .jsonPatch false, .decide quiet]
+  have hrun : run own w0 ls = some
+      { w0 with matchDel := false, rv := 1, mem := [Fn.block],
+                pending := some { fns := [Fn.block], rvTest := 1, view := [], merge := false } } := by
+    simp [ls, run, step, stepDecide, stepJson, w0, quiet, decision, inputs, Decision.fns,
+      mustBlockG, addG, removeG, earlyG, releaseG, applyFns, Fn.apply, blockDeletion]
+  refine ⟨_, { w0 with matchDel := false, rv := 2, fins := [own] }, reach_of_run ls (Reach.init (by simp [Init, w0])) hrun, ?_, ?_⟩
+  · simp [step, stepJson, w0, applyFns, Fn.apply, blockDeletion]
+  · simp [w0, decision, inputs, Decision.fns, quiet, mustBlockG, addG, removeG, earlyG, releaseG]
+
 /-- Hence the full statement does not hold of the mechanism. -/
 theorem never_early_fails (own : String) :
     ¬ (∀ (s s' : State) (l : Label), Reach own s → step own s l = some s' → own ∈ s.fins →
